@@ -41,9 +41,15 @@ fn check(ctx: &Ctx, which: Which, len: usize, tid: u64) {
     let img = image(len, ctx.seed ^ len as u64);
     // the other image carries different contents, so a writer that picks the wrong field is caught
     let other = image((len % 37) + 3, !ctx.seed ^ len as u64);
+    // the declared memory sizes are those of some device that can hold the image (the defaults every third
+    // time): what is written depends on the image alone
+    let pick = fw::mix64(ctx.seed, len as u64 ^ 0xC07);
+    let flash_sizes: Vec<u32> = [256u32, 512, 1024, 2048, 4096, 8192, 16384, 32768, 65536, 131072, 4194304].into_iter().filter(|w| (*w as usize) * 2 >= len).collect();
+    let eeprom_sizes: Vec<u32> = [0u32, 64, 128, 256, 512, 1024, 2048, 4096, 65536].into_iter().filter(|b| (*b as usize) >= len.min(65536)).collect();
+    let (fs, es) = if pick % 3 == 0 { (4194304, 65536) } else { (flash_sizes[(pick >> 8) as usize % flash_sizes.len()], eeprom_sizes[(pick >> 24) as usize % eeprom_sizes.len()]) };
     let br = match which {
-        Which::Code => BuildResult { code: img.clone(), eeprom: other, flash_size: 4194304, eeprom_size: 65536, ram_size: 8388608, ram_filling: 0, messages: vec![] },
-        Which::Eeprom => BuildResult { code: other, eeprom: img.clone(), flash_size: 4194304, eeprom_size: 65536, ram_size: 8388608, ram_filling: 0, messages: vec![] },
+        Which::Code => BuildResult { code: img.clone(), eeprom: other, flash_size: fs, eeprom_size: 65536, ram_size: 8388608, ram_filling: 0, messages: vec![] },
+        Which::Eeprom => BuildResult { code: other, eeprom: img.clone(), flash_size: 4194304, eeprom_size: es, ram_size: 8388608, ram_filling: 0, messages: vec![] },
     };
     let path = scratch().join(format!("w{}_{:?}_{}.hex", tid, which, len));
     let p2 = path.clone();
@@ -210,6 +216,41 @@ fn pipeline(ctx: &Ctx) {
             ctx.inconclusive(format!("pipeline program did not build: {}", out.kind()));
         }
     }
+    // every device of the table with both memories filled to the last byte: the images the assembler
+    // produces for that part, written with the sizes it reports for that part
+    let table = crate::refmodel::devices::table();
+    fw::par_items(&table, |_, (name, dev)| {
+        let mut src = format!(".device {}\n.org {}\n.dw 0x{:04x}\n", name, dev.flash_size - 1, fw::hash_str(name) as u16);
+        if dev.eeprom_size > 0 {
+            src.push_str(&format!(".eseg\n.db 1, 2\n.org {}\n.db 0x{:02x}\n", dev.eeprom_size - 1, fw::hash_str(name) as u8 | 1));
+        }
+        let out = fw::build_str(&src);
+        ctx.eval(1);
+        ctx.count("pipeline_devices", 1);
+        ctx.distinct(fw::hash_str(&src));
+        if let Outcome::Ok(b) = out {
+            for which in [Which::Code, Which::Eeprom] {
+                let path = scratch().join(format!("pipe_dev_{}_{:?}.hex", name, which));
+                let (p2, b2) = (path.clone(), b.clone());
+                let res = fw::guarded(move || match which {
+                    Which::Code => avra_lib::writer::write_code_hex(p2, &b2).map_err(|e| e.to_string()),
+                    Which::Eeprom => avra_lib::writer::write_eeprom_hex(p2, &b2).map_err(|e| e.to_string()),
+                });
+                let img = if which == Which::Code { &b.code } else { &b.eeprom };
+                let wname = if which == Which::Code { "code" } else { "eeprom" };
+                let ok = match res {
+                    Ok(Ok(())) => std::fs::read(&path).ok().and_then(|t| ihex::decode(&t).ok()).map(|d| ihex::compare(&d, img).is_ok()).unwrap_or(false),
+                    _ => false,
+                };
+                if !ok {
+                    ctx.violation(format!("hex/{}/pipeline-device-full/{}", wname, if img.len() > 65536 { "len>65536" } else { "len<=65536" }), format!("{}: the full {} image ({} bytes) does not round-trip through the writer", name, wname, img.len()), json!({"pipeline_source": src, "writer": wname}));
+                }
+                let _ = std::fs::remove_file(&path);
+            }
+        } else {
+            ctx.inconclusive(format!("pipeline program for {} did not build: {}", name, out.kind()));
+        }
+    });
 }
 
 pub fn run(ctx: &Ctx) -> i32 {
